@@ -386,6 +386,14 @@ def tLoad : Res :=
     | .ok => tStart
     | o => .done o
 
+/-- The context statement when NO persistence file is configured: connect, body, disconnect — nothing else. -/
+def tPlain : Res :=
+  .await .connect fun o => match o with
+    | .ok => .await .body fun o => .await .disconnect fun o' => match o' with
+        | .ok => .done o
+        | o' => .done o'
+    | o => .done o
+
 /-- One iteration of the saver's loop as `Lifecycle.saverStep` has it: a save, then the sleep; `catches`: a
 cancellation arriving in the sleep ends the loop (`break`), otherwise it ends the task. -/
 def tsSleep (catches : Bool) : Res :=
